@@ -4,7 +4,7 @@ the FLOW graph, every crash point between remote-mutating operations and every
 single rejected ref of every push; recovery by re-delivery to a fresh
 Bert-E."""
 from ..sysmc import check
-from ..sysmc.drivers import BYPASS_REVIEW
+from ..sysmc.drivers import BYPASS_REVIEW, conflict_init
 
 PROP = 'C02'
 PR1, PR2 = 'bugfix/TEST-1', 'bugfix/TEST-2'
@@ -61,6 +61,17 @@ def specs(tier):
     return [spec('c02-q-D2', 'D2', 'development/4.3', 'development/5.1',
                  depth=8, statuses_q=['SUCCESSFUL', 'FAILED']),
             behind_failed_spec(4),
+            # conflicts: the integration branches before the conflicting one
+            # are pushed, then the job stops; manual resolution
+            spec('c02-noq-D3-conflict', 'D3', None, None, queue=False,
+                 depth=6, resolve=True, init=conflict_init(),
+                 statuses_int=[],
+                 config={'layout': 'D3', 'queue': False, 'skip_queue': False,
+                         'options': BYPASS_REVIEW + ['bypass_build_status']}),
+            spec('c02-q-D3-conflict', 'D3', None, None, depth=6,
+                 resolve=True, init=conflict_init(), statuses_int=[],
+                 config={'layout': 'D3', 'queue': True, 'skip_queue': False,
+                         'options': BYPASS_REVIEW + ['bypass_build_status']}),
             queued_spec('D3', 'development/4.3', 'development/4.3', 5),
             queued_spec('D3', 'development/4.3', 'development/5.1', 5),
             spec('c02-q-S3', 'S3', 'stabilization/4.3.18', 'development/4.3',
